@@ -8,7 +8,7 @@ abbrev N := Node toy
 
 structure St where
   net : List N := []
-  opens : List (Nat × Nat) := []     -- (node, circuit id) of exit sockets whose outside transport is open
+
 
 def emptyNode (a mx : Nat) : N := { addr := a, circuits := [], relays := [], exits := [], maxEarly := mx, ctr := 0 }
 
@@ -225,31 +225,6 @@ def step (st : St) (toks : List String) : St × String :=
       let lost := (List.range ks.length).filter (fun i => s.out.map Prod.fst |>.count i |> (· != 1))
       (st, s!"out={s.out.length} lost={lost.length}")
     | _, _ => bad
-  | ["xopen", a, cid] =>
-    match a.toNat?, cid.toNat? with
-    | some a, some cid => ({ st with opens := (a, cid) :: st.opens.filter (· != (a, cid)) }, "ok")
-    | _, _ => bad
-  | ["rmstart", a, cid] =>
-    -- `remove_exit_socket` begins: nothing changes until remove_tunnel_delay has passed (ExitNode.removeStart)
-    match a.toNat?, cid.toNat? with
-    | some _, some _ => (st, "ok")
-    | _, _ => bad
-  | ["rmfinish", a, cid] =>
-    match a.toNat?, cid.toNat? with
-    | some a, some cid =>
-      match updNode st a (fun nd => (ExitNode.removeFinish ⟨nd, []⟩ cid).nd) with
-      | some st' => ({ st' with opens := st'.opens.filter (· != (a, cid)) }, "ok")
-      | none => bad
-    | _, _ => bad
-  | ["covered", a] =>
-    match a.toNat? with
-    | some a =>
-      match findNode st.net a with
-      | some nd =>
-        let x : ExitNode toy := ⟨nd, (st.opens.filter (·.1 == a)).map (·.2)⟩
-        (st, s!"{if x.covered then "covered" else "UNCOVERED"} open={showNatList (sortNat x.openSocks)}")
-      | none => bad
-    | none => bad
   | ["dump", a] =>
     match a.toNat? with
     | some a => match findNode st.net a with
@@ -272,7 +247,8 @@ def step (st : St) (toks : List String) : St × String :=
     match dst.toNat?, src.toNat?, cid.toNat?, bool? pt, bool? re, ofHex? inner with
     | some dst, some src, some cid, some pt, some re, some inner =>
       let body? : Option (Bytes × Nat) :=
-        if spec.startsWith "G" then
+        if spec == "R" then some (inner, inner.length)      -- the body is given byte for byte
+        else if spec.startsWith "G" then
           ((spec.drop 1).toString.toNat?).map (fun n => (List.replicate n (0xff : UInt8), 0))
         else (parseLayers spec).map (fun ls => (buildBody 100 ls inner, inner.length))
       match body? with
